@@ -24,6 +24,7 @@ import (
 //	garbage  answers with bytes that are not HTTP
 //	slow     sends the head announcing 1000 bytes and 10 bytes, stalls for Stall, then closes
 //	big      sends a 5 MiB body (for aborting downloads)
+//	eager    answers 200 as soon as the request head has arrived, then reads the body
 //	deaf     accepts the connection and never reads from it (an upload larger than the socket
 //	         buffers gets stuck on the way to it)
 type FaultBackend struct {
@@ -173,6 +174,9 @@ func (fb *FaultBackend) serve(c net.Conn, mode string, stall time.Duration) {
 			fb.reqs++
 			fb.mu.Unlock()
 		}
+		if mode == "eager" && path != ProbePath {
+			fmt.Fprintf(c, "HTTP/1.1 200 OK\r\nContent-Type: text/plain\r\nContent-Length: 2\r\n\r\nok")
+		}
 		if cl > 0 {
 			if _, err := io.CopyN(io.Discard, br, int64(cl)); err != nil {
 				return
@@ -193,6 +197,8 @@ func (fb *FaultBackend) serve(c net.Conn, mode string, stall time.Duration) {
 			}
 		}
 		switch mode {
+		case "eager":
+			continue // answered before the body
 		case "healthy":
 			body := fb.HealthyBody
 			if body == "" {
